@@ -224,6 +224,21 @@ CHECKS["C09"] = dict(
     technique="path exploration + exact folding of the policy function over all inputs + control dependence / must-pass + field coverage + path-fact analysis",
     design="3/C09")
 
+
+CHECKS["C18"] = dict(
+    text="Decides structural necessary conditions: (R1) a TLS op that obtained a context from the store puts it back on every failing exit after the get, and "
+         "close and cleanup reach the put; the cache creates entries with count 1, increments on a hit, decrements on put and frees exactly at zero; (R3) the "
+         "credential digest is fed each of the four items exactly once, a file contributes its path, st_dev, st_ino, st_size, st_mtim.tv_sec and tv_nsec and one "
+         "symlink level, every item type is handled; (R4) on every path to the context creation all four loads lie between a first and a second digest into "
+         "different buffers, the loop repeats while they differ and the entry is installed under the second; (R5) the functions that read XCM_TLS_CERT and the "
+         "network namespace keep nothing in static storage; (R6) the by-file and by-value setter of each credential write the same slot through a helper that "
+         "releases the previous content; (R7) every edge of ctx_store_get_ctx that gives up assigns EPROTO on all its paths to the exit or fails through a "
+         "callee all of whose failing exits carry EPROTO (errno facts), else every caller must set it. Not decided: that later connections see replaced files "
+         "(kernel and timing), that established connections are unaffected (OpenSSL object lifetime); thread-safety of the cache is C15's.",
+    note=TRUSTED,
+    technique="path exploration (get/put typestate, ordering typestate) + argument coverage + control dependence / must-pass + errno facts",
+    design="3/C18")
+
 NOT_APPLICABLE = {}
 
 
